@@ -287,6 +287,11 @@ def family_grids(shard):
         for idx in np.ndindex(shape):
             F[idx] = [LOW, 0.3, HIGH][(idx[0] + 2 * idx[1] + 3 * idx[2]) % 3]
         yield F
+        # energies whose exponential exceeds the threshold (exp(18) > 1e7): the capped weight of dijkstra-exp matters
+        Fh = np.zeros(shape)
+        for idx in np.ndindex(shape):
+            Fh[idx] = [LOW, 12.0, 18.0, 30.0][(idx[0] + 2 * idx[1] + 3 * idx[2]) % 4]
+        yield Fh
         F2 = F.copy()
         F2[tuple(0 for _ in shape)] = BLOCKED
         yield F2
